@@ -202,6 +202,13 @@ func doReplay(path string) int {
 		return 2
 	}
 	c := rec.Case
+	if aa, ok := c.Extra["abstract_args"].([]any); ok {
+		// clock-relative cases are re-executed from their abstract form
+		c.Args = nil
+		for _, a := range aa {
+			c.Args = append(c.Args, fmt.Sprint(a))
+		}
+	}
 	recorded := c.Impl
 	runOne(&c)
 	out, _ := json.Marshal(map[string]any{"op": c.Op, "args": c.Args, "impl_now": c.Impl, "impl_recorded": recorded, "oracle_now": c.Oracle, "extra": c.Extra})
